@@ -10,6 +10,7 @@
     fin <cap> <folded keys|->            FinishStringTop(cap) of the sampler path folded these entries into Tail
     ev c <top> <count> <host> <pick>
     ev v <top> <count> <vals q,…|-> <hist v:c,…|-> <host> <pick> <pct>
+    ev l … (same arguments)              the same event on an agent with LegacyApplyValues (MultiValue.ApplyValuesLegacy)
     ev p <top> <value> <count> <host> <pick> <pct>
     ev u <top> <count> <hashes value:h32,…> <host> <pick>
     cents <top> <m:w,…|->                observed ValueTDigest.Centroids() of that MultiValue at send time
@@ -107,16 +108,20 @@ def showOpt {β : Type} (f : β → String) (o : Option β) : String :=
 
 def showBool (b : Bool) : String := if b then "1" else "0"
 
+/-- sum of squares is compared only inside the exact domain of float64 (DESIGN §4.1: |values| ≤ 2^26) -/
+def absQ (q : Q) : Q := if q < 0 then -q else q
+def showSq (mn mx sq : Q) : String := if absQ mn > 67108864 || absQ mx > 67108864 then "~" else showQ sq
+
 def showMV (full : Bool) (name : String) (m : MultiValue Q) : String :=
   s!"{name} cnt={showQ m.v.counter} hc={showTag m.v.hcnt} vs={showBool m.v.vset} min={showQ m.v.min} max={showQ m.v.max} " ++
-  s!"sum={showQ m.v.sum} sq={showQ m.v.sq} hmin={showTag m.v.hmin} hmax={showTag m.v.hmax} dg={showDg full m.dg} uq={showList m.uq}"
+  s!"sum={showQ m.v.sum} sq={showSq m.v.min m.v.max m.v.sq} hmin={showTag m.v.hmin} hmax={showTag m.v.hmax} dg={showDg full m.dg} uqn={m.uq.length} uq={showList m.uq}"
 
 def showSparse {β : Type} (isDef : β → Bool) (f : β → String) (l : List β) : String :=
   showList ((l.zipIdx.filter (fun p => !isDef p.1)).map (fun p => s!"{p.2}:{f p.1}"))
 
 def showTLValue (name : String) (t : TLValue Q) : String :=
   s!"tl val {name} c={showOpt showQ t.counter} eq1={showBool t.eq1} vs={showBool t.vset} min={showOpt showQ t.min} " ++
-  s!"max={showOpt showQ t.max} sum={showQ t.sum} sq={showQ t.sq} uq={showOpt showList t.uq} cents={showOpt showCents t.cents} " ++
+  s!"max={showOpt showQ t.max} sum={showQ t.sum} sq={showSq (t.min.getD 0) (t.max.getD 0) t.sq} uq={showOpt showList t.uq} cents={showOpt showCents t.cents} " ++
   s!"imp={showBool t.implicit} hmaxI={showOpt toString t.hmaxI} hminI={showOpt toString t.hminI} hcntI={showOpt toString t.hcntI} " ++
   s!"hmaxS={showOpt String.ofList t.hmaxS} hminS={showOpt String.ofList t.hminS} hcntS={showOpt String.ofList t.hcntS}"
 
@@ -192,6 +197,11 @@ def step (st : St) (toks : List String) : St × List String :=
     match parseTag? top, parseQ? count, parseQList? vals, parsePairs? parseQ? parseQ? hist, parseTag? host, parseBool? pick, parseBool? pct with
     | some top, some count, some vals, some hist, some host, some pick, some pct =>
       evStep st top (.values hist vals count host pick pct) (parseDraws? cap rd rounds evk)
+    | _, _, _, _, _, _, _ => (st, ["bad-op"])
+  | ["ev", "l", top, count, vals, hist, host, pick, pct, cap, rd, rounds, evk] =>
+    match parseTag? top, parseQ? count, parseQList? vals, parsePairs? parseQ? parseQ? hist, parseTag? host, parseBool? pick, parseBool? pct with
+    | some top, some count, some vals, some hist, some host, some pick, some pct =>
+      evStep st top (.valuesLegacy hist vals count host pick pct) (parseDraws? cap rd rounds evk)
     | _, _, _, _, _, _, _ => (st, ["bad-op"])
   | ["ev", "p", top, value, count, host, pick, pct, cap, rd, rounds, evk] =>
     match parseTag? top, parseQ? value, parseQ? count, parseTag? host, parseBool? pick, parseBool? pct with
